@@ -164,11 +164,32 @@ Case gen() {
     poly = {GEN::ring((int)G::range(80, 250), G::sym(1000), G::sym(1000), 0.995 * R, R, outerPositive)};
     ST.count(OFS::validSimple(poly, 10.0) ? "large_ring_in_domain" : "large_ring_discarded");
   }
+  bool rectShape = G::chance(8);
+  int64_t rw = 0, rh = 0;
+  if (rectShape) {
+    // rectilinear shapes (exact 90-degree turns): a rectangle / square, or a frame (rectangle with a rectangular hole);
+    // deltas include exactly half the width (shrinking to nothing) and miter limits exactly at sqrt(2), the 90-degree boundary
+    rw = G::range(8, (int64_t)R); rh = G::coin() ? rw : G::range(8, (int64_t)R);
+    int64_t x0 = G::sym((int64_t)R), y0 = G::sym((int64_t)R);
+    if (G::chance(30)) { x0 = (int64_t(1) << 40) - rw - 1; y0 = -(int64_t(1) << 40) + 1; }   // at the top of the allowed magnitude
+    Path64 outer = {Point64(x0, y0), Point64(x0 + rw, y0), Point64(x0 + rw, y0 + rh), Point64(x0, y0 + rh)};
+    if (!outerPositive) std::reverse(outer.begin(), outer.end());
+    poly = {outer};
+    if (rw >= 40 && rh >= 40 && G::coin()) {
+      int64_t bx = rw / 4, by = rh / 4;
+      Path64 hole = {Point64(x0 + bx, y0 + by), Point64(x0 + bx, y0 + rh - by), Point64(x0 + rw - bx, y0 + rh - by), Point64(x0 + rw - bx, y0 + by)};
+      if (!outerPositive) std::reverse(hole.begin(), hole.end());
+      poly.push_back(hole);
+    }
+    ST.count("rectilinear_shape");
+  }
   c.p["poly"] = poly;
   int cls = (int)G::range(0, 3);
   double ad = cls == 0 ? G::real(0.1, 0.49) : cls == 1 ? G::real(0.5, 5) : cls == 2 ? G::real(5, 0.3 * R) : G::real(0.3 * R, 2 * R);
+  if (rectShape && G::coin()) { ad = G::oneOf(std::vector<double>{0.5, 1.0, (double)std::min(rw, rh) / 2.0, (double)std::min(rw, rh) / 2.0 + 0.5, (double)std::min(rw, rh) / 4.0, (double)std::max(rw, rh)}); }
   c.d["delta"] = ad;
   c.d["ml"] = G::chance(20) ? G::real(0.0, 1.0) : G::real(1.0, 5.0);
+  if (G::chance(10)) c.d["ml"] = G::oneOf(std::vector<double>{1.0, 1.4142135623730951, 1.4142135623730949, 2.0, 100.0, 1e6});
   c.d["at"] = G::coin() ? 0.0 : G::real(0.05, 3.0);
   c.i["rev"] = G::range(0, 1);
   c.i["route"] = G::chance(40) ? 0 : G::range(1, 3);
